@@ -1,5 +1,6 @@
 import CoapVerif.Lemmas.ServerSeq
 import CoapVerif.Lemmas.Async
+import CoapVerif.Lemmas.AsyncRefs
 /-
 C10 — server answers each request datagram once, with the protocol-prescribed code.
 
@@ -710,6 +711,70 @@ theorem async_retransmission_acked_only (cfg : Server.Cfg) (tbl : Table) (rq : R
   rw [decisionA_eq_specA true false cfg tbl rq hfit]
   exact deferred_retransmission_acked E false cfg tbl rq h
 
+/-! ### the session reference of an entry (coap_session_reference_lkd in coap_register_async, coap_session_release_lkd in
+coap_free_async_sub) and the idle reaper — for EVERY event sequence from the fresh context (requests that defer,
+retransmissions, time, trigger, set_delay, free, the reaper at the end of every I/O step).  The machine has one holder
+kind (the `coap_async_t`); C12's `ref_eq_holders` is the same balance over all holder kinds of a session (its
+`HKind.async / asyncD` is this one) and covers coap_session_release by the application / session close. -/
+
+/-- after EVERY event sequence: `session->ref` of every session = the number of entries of `context->async_state` whose
+`session` it is (each entry holds exactly one reference from coap_register_async to coap_free_async / its delayed
+invocation), and there is one session per peer address -/
+theorem async_refs_balanced (c : Async.Cfg) (dec : Dec) (evs : List Async.Ev) :
+    (∀ s ∈ (final c dec (St.init c) evs).sess, s.ref = L.cnt (final c dec (St.init c) evs).async s.peer) ∧
+    ((final c dec (St.init c) evs).sess.map (·.peer)).Nodup :=
+  ⟨(L.final_bal c dec evs _ (L.init_bal c)).refs, (L.final_bal c dec evs _ (L.init_bal c)).nodup⟩
+
+/-- after EVERY event sequence every entry names a session that is in the endpoint's table, and that session's
+reference count is not 0; and whatever event comes next, no entry of the list afterwards names a session the event's
+reaper pass freed -/
+theorem async_no_entry_of_freed_session (c : Async.Cfg) (dec : Dec) (evs : List Async.Ev) :
+    (∀ e ∈ (final c dec (St.init c) evs).async, ∃ s ∈ (final c dec (St.init c) evs).sess, s.peer = e.sess ∧ 0 < s.ref) ∧
+    (∀ ev, ∀ e ∈ (step c dec (final c dec (St.init c) evs) ev).1.async,
+      e.sess ∉ (step c dec (final c dec (St.init c) evs) ev).2.reaped) := by
+  have hb := L.final_bal c dec evs _ (L.init_bal c)
+  constructor
+  · intro e he
+    rcases List.mem_map.mp (hb.live _ (List.mem_map_of_mem he)) with ⟨s, hs, hse⟩
+    refine ⟨s, hs, hse, ?_⟩
+    rw [hb.refs s hs, hse]
+    exact L.cnt_pos_of_mem he
+  · intro ev e he hr
+    have := (L.step_bal c dec _ ev hb).2 _ hr
+    have h2 := L.cnt_pos_of_mem he
+    omega
+
+/-- the idle reaper (`ref == 0 && last_rx_tx + session_timeout <= now`) never reclaims a session with a pending entry:
+in every reachable state a session that an entry names is not idle however long nothing was received from the peer, and
+the sessions an event reclaims have no entry left (an entry that fired in the same coap_io_prepare_io call released its
+reference before the reaper looked) -/
+theorem async_pending_session_not_reclaimed (c : Async.Cfg) (dec : Dec) (evs : List Async.Ev) :
+    (∀ now, ∀ s ∈ (final c dec (St.init c) evs).sess, (∃ e ∈ (final c dec (St.init c) evs).async, e.sess = s.peer) →
+      idle c now s = false) ∧
+    (∀ ev, ∀ p ∈ (step c dec (final c dec (St.init c) evs) ev).2.reaped,
+      L.cnt (step c dec (final c dec (St.init c) evs) ev).1.async p = 0 ∧
+      ∀ e ∈ (step c dec (final c dec (St.init c) evs) ev).1.async, e.sess ≠ p) := by
+  have hb := L.final_bal c dec evs _ (L.init_bal c)
+  constructor
+  · intro now s hs ⟨e, he, hes⟩
+    have h1 := hb.refs s hs
+    have h2 := L.cnt_pos_of_mem he
+    rw [hes] at h2
+    have : s.ref ≠ 0 := by omega
+    simp [idle, this]
+  · intro ev p hp
+    have h0 := (L.step_bal c dec _ ev hb).2 p hp
+    refine ⟨h0, ?_⟩
+    intro e he hep
+    have h2 := L.cnt_pos_of_mem he
+    rw [hep] at h2
+    omega
+
+/-- the invariant is inductive: it holds in the fresh state and every event preserves it from ANY state that has it -/
+theorem async_balance_inductive (c : Async.Cfg) (dec : Dec) :
+    L.Bal (St.init c) ∧ ∀ st ev, L.Bal st → L.Bal (step c dec st ev).1 :=
+  ⟨L.init_bal c, fun st ev h => (L.step_bal c dec st ev h).1⟩
+
 /-! non-vacuity: GET /a from peer 1 deferred for 500 ticks, retransmitted, 499 ticks pass (nothing), 1 more tick (the
 delayed invocation: the handler is given the stored request and its 2.05 goes out as a separate Confirmable response) -/
 def exACfg : Async.Cfg := ⟨1000, 2000, 32896⟩
@@ -728,6 +793,16 @@ def exASt : St := (step exACfg (serverDec exCfg exTbl) (St.init exACfg) (.rx 1 (
 example : (find exASt.async 1 exAgain.rq.msg.token).isSome = true := by decide
 example : (0 < exASt.now ∧ exASt.now < W) ∧ (∀ e ∈ exASt.async, e.delay < W) ∧ exASt.async ≠ [] := by decide
 example : fits exCfg ∧ hasOpt exAgain.rq.msg.opts 6 = false := by decide
+
+/-! non-vacuity of the balance: deferred for 5000 ticks; 3000 ticks later the session has long been silent (timeout 2000)
+but holds a reference: not reclaimed; at 6000 the entry fires (reference dropped, response sent); 2000 ticks later the
+session is reclaimed -/
+def exBRun : List Async.Ev :=
+  [.rx 1 (some 5000) exAgain.rq, .io 3000 ⟨69, [104, 105]⟩, .io 2000 ⟨69, [104, 105]⟩, .io 2000 ⟨69, [104, 105]⟩]
+example : (run exACfg (serverDec exCfg exTbl) (St.init exACfg) exBRun).map (fun o => (o.fired.length, o.reaped)) =
+    [(0, []), (0, []), (1, []), (0, [1])] := by decide
+example : ((final exACfg (serverDec exCfg exTbl) (St.init exACfg) (exBRun.take 2)).sess.map (fun s => (s.peer, s.ref, s.last)),
+           (final exACfg (serverDec exCfg exTbl) (St.init exACfg) (exBRun.take 2)).now) = ([(1, 1, 1000)], 4000) := by decide
 
 end Async
 
